@@ -590,22 +590,56 @@ func (c *Ctx) decodeKeepsEveryFilter() {
 			want = append(want, "qos")
 		}
 		var bad []string
+		// appendsTo: the instruction stores append(..) into the field f
+		appendsTo := func(in ssa.Instruction, f string) bool {
+			st, ok := in.(*ssa.Store)
+			if !ok {
+				return false
+			}
+			p := ir.PathOf(st.Addr)
+			if len(p.Fields) == 0 || p.Fields[len(p.Fields)-1] != f {
+				return false
+			}
+			if call, ok := st.Val.(*ssa.Call); ok {
+				if bi, ok := call.Common().Value.(*ssa.Builtin); ok && bi.Name() == "append" {
+					return true
+				}
+			}
+			return false
+		}
+		// appendHelper: a loop-free method of the message that appends exactly once to f on every path
+		appendHelper := func(in ssa.Instruction, f string) bool {
+			call, ok := in.(*ssa.Call)
+			if !ok {
+				return false
+			}
+			h := call.Common().StaticCallee()
+			if h == nil || h.Blocks == nil || recvNamed(h) != tn || len(ir.Loops(h)) > 0 {
+				return false
+			}
+			n := 0
+			for _, b := range h.Blocks {
+				for _, i2 := range b.Instrs {
+					if appendsTo(i2, f) {
+						n++
+					}
+				}
+			}
+			if n != 1 {
+				return false
+			}
+			first := h.Blocks[0].Instrs[0]
+			if appendsTo(first, f) {
+				return true
+			}
+			return pathAvoiding(first, func(i2 ssa.Instruction) bool { return appendsTo(i2, f) }) == nil
+		}
 		for _, f := range want {
-			var stores []*ssa.Store
+			var stores []ssa.Instruction
 			for b := range loop.Blocks {
 				for _, in := range b.Instrs {
-					st, ok := in.(*ssa.Store)
-					if !ok {
-						continue
-					}
-					p := ir.PathOf(st.Addr)
-					if len(p.Fields) == 0 || p.Fields[len(p.Fields)-1] != f {
-						continue
-					}
-					if call, ok := st.Val.(*ssa.Call); ok {
-						if bi, ok := call.Common().Value.(*ssa.Builtin); ok && bi.Name() == "append" {
-							stores = append(stores, st)
-						}
+					if appendsTo(in, f) || appendHelper(in, f) {
+						stores = append(stores, in)
 					}
 				}
 			}
